@@ -449,7 +449,7 @@ Section Flags.
           inversion Hg'; subst. exact Hcact. }
       destruct c as [cid f|cid|cid var v]; cbn [c_mode c_frames c_st]; apply V; reflexivity.
     - (* Exit *)
-      unfold exit_ctx, get_task. rewrite Hg.
+      rewrite (exit_ctx_active t c s None tk Hg Hcact).
       set (tk1 := tk_with_ctxs tk (remove_ctx c (tk_ctxs tk)) (tk_cact tk)).
       pose proof (set_task_upd s t None tk tk1 Hg) as U1.
       assert (V : forall s2, heap s2 = heap (set_task t tk1 s) -> tasks s2 = tasks (set_task t tk1 s) ->
